@@ -18,7 +18,7 @@ Program syntax (no blanks):  stmt (';' stmt)*
   call:<verbose>{…}              verbose: N | i<int> | s<name> | bT | bF
   real:<k>:<verbose>:<o|x>:<inner>   decorated cfdm function number k; x = called so that it raises;
                                  inner = verbosity of the decorated call it makes itself (N = none)
-  try{…}    raise:<V|T|K>    eq:<r>:<a>:<m>
+  try{…}    raise:<V|T|K>    eq:<r>:<a>:<m>[:<how>]   (r, a: `_` or tolerance number; 8 = zero)
 -/
 namespace Cfdm.Driver.C20
 open Cfdm.Driver Cfdm.Settings
@@ -89,6 +89,9 @@ def parseAtom (t : String) : Option Prog :=
     some (.real v raises inner)
   | ["raise", e] => (parseExc e).map Prog.raise
   | ["eq", r, a, m] => do
+    let r ← parseOptNat r; let a ← parseOptNat a; let m ← m.toNat?
+    some (.eq r a m)
+  | ["eq", r, a, m, _how] => do      -- _how: which construct / how the numbers are spelled (harness only)
     let r ← parseOptNat r; let a ← parseOptNat a; let m ← m.toNat?
     some (.eq r a m)
   | _ => none
